@@ -113,6 +113,16 @@ Theorem C32_components_normalize_path : forall s : bytes,
   components (normalize_path s) = normalize_comps (components s).
 Proof. exact components_normalize_path. Qed.
 
+(** [normalize_path] is idempotent: the "base is left alone by normalization" hypothesis of
+    [C32_roundtrip] holds for every base that is itself an output of [normalize_path]. *)
+Theorem C32_normalize_idempotent : forall s : bytes,
+  normalize_path (normalize_path s) = normalize_path s
+  /\ normalize_comps (components (normalize_path s)) = components (normalize_path s).
+Proof.
+  intros s. split; [apply normalize_path_idem|].
+  rewrite components_normalize_path. apply normalize_comps_idem.
+Qed.
+
 (** Meaning of the checker run on the implementation's recorded answers. *)
 Theorem C32_okb_spec : forall c : case,
   okb c = true <->
